@@ -161,14 +161,20 @@ def _parity_up(px, py, vx, vy):
     return par
 
 
-def h_polygon(inc, query, n, m):
+def h_polygon(inc, query, n, m, origin=False):
     from regions import PolygonPixelRegion, PixCoord
     _poly_shims(m)
     cx, cy = m.real('vx0'), m.real('vy0')
     vx = [cx] + [cx + m.real(f'ex{i}') for i in range(1, n)]
     vy = [cy] + [cy + m.real(f'ey{i}') for i in range(1, n)]
     dt = object if m.sym else float
-    reg = PolygonPixelRegion(PixCoord(np.array(vx, dtype=dt), np.array(vy, dtype=dt)), meta=_meta(inc))
+    if origin:
+        # the same polygon given through the origin= keyword: vertices relative to an arbitrary origin (ox != oy in general)
+        ox, oy = m.real('ox'), m.real('oy')
+        reg = PolygonPixelRegion(PixCoord(np.array([x - ox for x in vx], dtype=dt), np.array([y - oy for y in vy], dtype=dt)),
+                                 meta=_meta(inc), origin=PixCoord(ox, oy))
+    else:
+        reg = PolygonPixelRegion(PixCoord(np.array(vx, dtype=dt), np.array(vy, dtype=dt)), meta=_meta(inc))
     included = True if inc is None else bool(inc)
     for tag, pc_, pts in _queries(m, query, cx, cy):
         res = reg.contains(pc_)
@@ -354,6 +360,7 @@ def harnesses(tier):
             for qy in (['scalar', 'vec2', 'empty'] if n <= 4 else ['scalar']):
                 hs.append((f'polygon/n={n}/include={iname}/query={qy}', P(h_polygon, inc, qy, n)))
     for iname, inc in INCLUDES[:1] + INCLUDES[2:3]:
+        hs.append((f'polygon/n=3/include={iname}/query=scalar/origin-keyword', P(h_polygon, inc, 'scalar', 3, origin=True)))
         hs.append((f'polygon/n=3/include={iname}/query=mat22F', P(h_polygon, inc, 'mat22F', 3)))
         hs.append((f'circle/include={iname}/query=mat22F', P(h_circle, inc, 'mat22F')))
         hs.append((f'rectangle/include={iname}/query=mat22F/angle=deg', P(h_rect, inc, 'mat22F', 'deg')))
